@@ -485,11 +485,16 @@ func genLifecycle(r *Rng, idx int, tier string, step func(op string) string) {
 			}
 			do("stop")
 			if ntrk > 0 {
-				switch r.Intn(4) {
+				switch r.Intn(5) {
 				case 0:
 					do("start") // a start while the torrent is still stopping
 				case 1:
 					do("obs")
+				case 2:
+					if ntrk < 4 {
+						do("addtracker") // a tracker added while the torrent is still stopping: remembered, not announced to
+						ntrk++
+					}
 				}
 				do("waitstop")
 				do("trk mode=ok")
@@ -499,6 +504,9 @@ func genLifecycle(r *Rng, idx int, tier string, step func(op string) string) {
 			if ntrk > 0 {
 				do("waitstop")
 			}
+		case roll < 53 && ntrk > 0 && ntrk < 4 && (st == "Stopped" || st == "Downloading" || st == "Seeding"):
+			do("addtracker")
+			ntrk++
 		case roll < 58:
 			kind := r.Pick2("open", l.readGate(), "write")
 			on := !gates[kind]
